@@ -201,7 +201,13 @@ impl<S: Storage> Builder<S> {
         let rexpr = self.resolve_column_index(rkeys, right);
         let (ltypes, rtypes) = (self.plan_types(lkeys), self.plan_types(rkeys));
         let common = (ltypes.iter().zip(rtypes))
-            .map(|(l, r)| if l == r { None } else { l.union(r) })
+            .map(|(l, r)| match l.union(r) {
+                // two values of one kind (e.g. decimals of different scales) compare as they are
+                _ if std::mem::discriminant(l) == std::mem::discriminant(r) => None,
+                // no scale: a cast to DECIMAL(p, s) would round the other side
+                Some(DataType::Decimal(_, _)) => Some(DataType::Decimal(None, None)),
+                ty => ty,
+            })
             .collect_vec();
         (cast_keys(lexpr, &common), cast_keys(rexpr, &common))
     }
